@@ -12,7 +12,10 @@ from pyvc.values import (
     BOOL, INT, REAL, STR, Atom, ListOf, ObjOf, OneOf, Opaque, OpaqueOf, Opt, PyList, Rec, SList, Sym, Unsupported,
 )
 
+from pyvc.values import ClassRef
 from .common import install_common, sorted_perm
+
+ClassRefCI = ClassRef("CacheItemInfo")
 
 STORE = "joblib/_store_backends.py"
 Path = Atom("Path")
@@ -160,6 +163,71 @@ def build():
                        "R": "items_to_delete is ret__get_items_to_delete"},
             havoc=["ghost:CLEARED"],
         )},
+    ))
+
+    # ---- FileSystemStoreBackend.get_items: the inventory the eviction works on.  Other users may delete entries while it is taken: every
+    # os.path.getatime / getsize may raise OSError at any moment (rely), and nothing escapes; every item reported has a size >= 0
+    # (what _get_items_to_delete assumes) and belongs to a directory named like an argument hash.
+    # Shape-bounded: at most two files are listed per entry directory; the number of directories is unbounded (loop invariant).
+    Dir = Atom("DirPath")
+    HASHDIR = z3.Function("is_hash_dir", Dir.sort(), z3.BoolSort())
+
+    def os_walk(interp, args, kwargs):
+        ctx = interp.ctx
+        n = z3.Int(ctx.fresh_name("ndirs"))
+        ctx.assume(n >= 0)
+        dirs = z3.Function(ctx.fresh_name("walkdir"), z3.IntSort(), Dir.sort())
+        return Opaque("walk", None, seq=(n, lambda i: (Sym(Dir, dirs(i)), Opaque("subdirs", None), Opaque("filenames", None, of=Sym(Dir, dirs(i))))))
+
+    def getatime(interp, args, kwargs):
+        interp.ctx.events.append(("getatime", args[0]))
+        if interp.ctx.choose(2, "getatime:gone") == 1:
+            interp.raise_("OSError")
+        return REAL.fresh(interp.ctx, "atime")
+
+    def getsize(interp, args, kwargs):
+        interp.ctx.events.append(("getsize", args[0]))
+        if interp.ctx.choose(2, "getsize:gone") == 1:
+            interp.raise_("FileNotFoundError")
+        sz = INT.fresh(interp.ctx, "filesize")
+        interp.ctx.assume(sz.term >= 0)
+        return sz
+
+    p.models["os.walk"] = os_walk
+    p.models["os.path.getatime"] = getatime
+    p.models["os.path.getsize"] = getsize
+    p.models["os.path.basename"] = lambda i, a, k: Opaque("basename", None, of=a[0])
+    p.models["os.path.join"] = lambda i, a, k: Opaque("joined", None, parts=tuple(a))
+    p.models["re.match"] = lambda i, a, k: (Opaque("match", None) if i.ctx.branch(HASHDIR(a[1].attrs["of"].term), "is-hash-dir") else None)
+    p.models["datetime.datetime.fromtimestamp"] = lambda i, a, k: a[0]
+    orig_for_items = p.for_items
+
+    def for_items(interp, it, node):
+        if isinstance(it, Opaque) and it.tag == "filenames":
+            return [Opaque("filename", None, k=j) for j in range(interp.ctx.choose(3, "files-listed"))]
+        return orig_for_items(interp, it, node)
+
+    p.for_items = for_items
+
+    def new_item(interp, args, kwargs):
+        it = Item.fresh(interp.ctx, "item")
+        f = Item.field_fn
+        interp.ctx.assume(z3.And(f("size")(it.term) == ops.as_int_term(args[1]), f("last_access")(it.term) == ops.as_num_term(args[2])))
+        interp.ctx.ghost["LAST_ITEM_DIR"] = args[0]
+        return it
+
+    p.models["new:CacheItemInfo"] = new_item
+    p.spec_funcs["sizes_ok"] = lambda interp, lst: True if isinstance(lst, PyList) and not lst.items else ops.mk_bool(z3.ForAll(
+        [z3.Int("j!gi")], z3.Implies(z3.And(0 <= z3.Int("j!gi"), z3.Int("j!gi") < lst.length), Item.field_fn("size")(z3.Select(lst.arr, z3.Int("j!gi"))) >= 0),
+        patterns=[z3.Select(lst.arr, z3.Int("j!gi"))]))
+    p.add(Contract(
+        STORE, "FileSystemStoreBackend.get_items", props=["C18", "C11"], globals={"CacheItemInfo": lambda interp: ClassRefCI},
+        params=dict(self=ObjOf("FileSystemStoreBackend", location=OpaqueOf("location"))),
+        ensures={"every_reported_size_is_non_negative": "sizes_ok(result)"},
+        # no exsures: whatever disappears while the inventory is taken, no exception escapes
+        loops={1: Loop("for (dirpath, _, filenames) in os.walk(self.location)",
+                       invariant={"sizes_so_far": "sizes_ok(items)"},
+                       kinds={"items": ListOf(Item)})},
     ))
 
     # ---- Memory.reduce_size: delegates to enforce_store_limits once, or does nothing
